@@ -327,7 +327,7 @@ theorem mixed_div_zero_reported {n : Nat} {a : List Nat} {y : Nat} (hy : y < 2 ^
    mod_zero' (assign_wf' n y) (by rw [assign_val' n hy]; exact h)⟩
 
 -- k = 16: the built-in 65536 is 0 modulo W and is reported as a zero divisor; 65539 divides as 3
-example : (65536 : Nat) % W 1 = 0 ∧ div [7] (assign 1 65536) = .mathError ∧
+example : Wf 1 [7] ∧ Wf 1 [1] ∧ (65536 : Nat) < 2 ^ 64 ∧ (65536 : Nat) % W 1 = 0 ∧ div [7] (assign 1 65536) = .mathError ∧
     (65539 : Nat) % W 1 ≠ 0 ∧ div [7] (assign 1 65539) = .ok [2] ∧ mod [7] (assign 1 65539) = .ok [1] ∧
     sub [1] (assign 1 65539) = [0xfffe] := by decide
 
